@@ -246,7 +246,8 @@ def run_model_sharded(kind, cases_file, out_file, shards=NCPU, timeout=1800):
 
 # ---------------------------------------------------------------- Rust side
 HARNESS_DIR = os.path.join(VERIF, "harness")
-HARNESS_TARGET = os.path.join(BUILD, "harness-target")
+_SUFFIX = "" if REPO == "/repo" else "-" + hashlib.sha256(REPO.encode()).hexdigest()[:8]   # one cargo target dir per checkout
+HARNESS_TARGET = os.path.join(BUILD, "harness-target" + _SUFFIX)
 GUARD = "copia_verif"
 
 
@@ -268,7 +269,7 @@ def harness_exe(profile="release"):
     return os.path.join(HARNESS_TARGET, profile, "copia-verif-harness")
 
 
-CLI_TARGET = os.path.join(BUILD, "copia-target")
+CLI_TARGET = os.path.join(BUILD, "copia-target" + _SUFFIX)
 
 
 def build_cli():
